@@ -74,6 +74,17 @@ Record request := mkReq { q_meth : meth ; q_path : str ; q_params : params }.
 Record response := mkResp { status : Z ; payload : body }.
 Definition call_log := list (nat * params).
 
+(* dict(request.rel_url.query) / dict(await request.post()) on aiohttp's MultiDict: one entry per key, the FIRST
+   value of a repeated key, keys in order of first appearance *)
+Fixpoint dict_of (p : params) : params :=
+  match p with
+  | [] => []
+  | (k, v) :: t => (k, v) :: filter (fun kv => negb (str_eqb (fst kv) k)) (dict_of t)
+  end.
+Definition q_dict (q : request) : params := dict_of (q_params q).
+Fixpoint pget (k : str) (p : params) : option str :=
+  match p with [] => None | (a, b) :: t => if str_eqb k a then Some b else pget k t end.
+
 (* the definition the wrapper resolves dynamically: Some (arity, code) | None (no symbol / not a function any more);
    `e` records the redefinitions since registration *)
 Definition current (e : env) (h : hval) : option (Z * nat) :=
@@ -128,7 +139,7 @@ Definition answer (fl : rflags) (r : option body * call_log) : response * call_l
 Definition serve (fl : rflags) (behav : nat -> params -> outcome) (rs : list route) (e : env) (q : request)
   : response * call_log :=
   match find_route rs (q_meth q) (q_path q) with
-  | Some r => answer fl (invoke fl behav e (r_h r) (q_params q))
+  | Some r => answer fl (invoke fl behav e (r_h r) (q_dict q))
   | None =>                                                   (* aiohttp's answer, assumed *)
       if existsb (fun r => str_eqb (r_path r) (q_path q)) rs
       then (mkResp 405 (BText []), []) else (mkResp 404 (BText []), [])
@@ -170,19 +181,24 @@ Definition num_row (n : nat) (v : jv) : bool :=
 
 (* what KGFnWrapper does to ONE argument before the Klong code sees it *)
 Inductive delivery :=
-| DIntact                 (* the handler receives the decoded message (lists as arrays) *)
-| DChanged                (* np.asarray coerced the elements: [1,"x"] -> ["1" "x"], [true,2] -> [1 2] *)
+| DIntact                 (* the handler receives the decoded message (lists as Klong lists, null as :undefined) *)
+| DChanged                (* np.asarray coerced the elements: [1,"x"] -> ["1" "x"] *)
 | DSkipped                (* None is an elided argument: the call is a projection, no code runs *)
 | DRaise.                 (* np.asarray raises on a ragged list before any code runs *)
 
-Definition deliver (v : jv) : delivery :=
+(* how KGFnWrapper._convert_args converts (regenerated from klongpy/types.py):
+   wf_kg = lists go through the backend's kg_asarray (ragged and mixed lists stay lists of their elements) instead of
+   np.asarray; wf_none = None becomes :undefined instead of being passed on as None *)
+Record wflags := mkWF { wf_kg : bool ; wf_none : bool }.
+
+Definition deliver (wf : wflags) (v : jv) : delivery :=
   match v with
-  | JNull => DSkipped
+  | JNull => if wf_none wf then DIntact else DSkipped
   | JArr l =>
+      if wf_kg wf then DIntact else
       if forallb is_scalar l then
-        if (existsb is_strj l && existsb (fun x => is_numlike x || is_boolj x) l)
-           || (existsb is_boolj l && existsb is_numlike l)
-        then DChanged else DIntact
+        if existsb is_strj l && existsb (fun x => is_numlike x || is_boolj x) l
+        then DChanged else DIntact                       (* true/false next to numbers become 1/0: the same Klong value *)
       else match l with
            | JArr r0 :: _ => if forallb (num_row (length r0)) l then DIntact else DRaise
            | _ => DRaise
@@ -193,14 +209,14 @@ Definition deliver (v : jv) : delivery :=
 (* NetworkClient._run/_listen: recv, decode, run .ws.m on the klong loop and AWAIT it, then recv again;
    any exception other than ConnectionClosed leaves the loop for good.
    ok v = the Klong code of .ws.m returns normally on v.   Result: (messages whose code ran, loop alive) *)
-Fixpoint ws_run (ok : jv -> bool) (msgs : list jv) : list jv * bool :=
+Fixpoint ws_run (wf : wflags) (ok : jv -> bool) (msgs : list jv) : list jv * bool :=
   match msgs with
   | [] => ([], true)
   | m :: r =>
-      match deliver m with
-      | DSkipped => ws_run ok r
+      match deliver wf m with
+      | DSkipped => ws_run wf ok r
       | DRaise => ([], false)
-      | _ => if ok m then let '(inv, alive) := ws_run ok r in (m :: inv, alive)
+      | _ => if ok m then let '(inv, alive) := ws_run wf ok r in (m :: inv, alive)
              else ([m], false)
       end
   end.
@@ -251,7 +267,7 @@ Definition the_code (e : env) (h : hval) : option nat :=
   end.
 Definition spec_entry (fl : rflags) (gets posts : list (str * hval)) (e : env) (q : request) : call_log :=
   match spec_route fl gets posts (q_meth q) (q_path q) with
-  | Some h => match the_code e h with Some b => [(b, q_params q)] | None => [] end
+  | Some h => match the_code e h with Some b => [(b, q_dict q)] | None => [] end
   | None => []
   end.
 Fixpoint spec_log (fl : rflags) (gets posts : list (str * hval)) (e : env) (evs : list event) : call_log :=
@@ -260,5 +276,8 @@ Fixpoint spec_log (fl : rflags) (gets posts : list (str * hval)) (e : env) (evs 
   | EReq q :: r => spec_entry fl gets posts e q ++ spec_log fl gets posts e r
   | EDef s v :: r => spec_log fl gets posts (env_set s v e) r
   end.
-Definition delivered (m : jv) : bool :=
-  match deliver m with DSkipped | DRaise => false | _ => true end.
+Definition delivered (wf : wflags) (m : jv) : bool :=
+  match deliver wf m with DSkipped | DRaise => false | _ => true end.
+Definition impl_wflags : wflags := mkWF Generated.wrapper_uses_kg_asarray Generated.none_is_undefined.
+Definition good_wflags : wflags := mkWF true true.
+Definition old_wflags : wflags := mkWF false false.
